@@ -14,23 +14,36 @@
     (D5) extension constructors take a string literal also in permissive mode (non-literal arguments would need
          "the parsers only raise extension errors", not proved);
     (D6) `context == context` / `context != context` are not folded to True / False (would need reflexivity of
-         `Value.beq` on arbitrary records, not proved);
-    (D7) `hasTag` / `getTag` on an entity LUB of which SOME but not all elements declare tags is rejected (permissive
-         mode only — strict mode has no such LUBs; the Go code types such a `hasTag` False: `C15_hasTag_mixed_counterexample`).
+         `Value.beq` on arbitrary records, not proved).
   Hypotheses on the request and the store:
     `EnvOK Γ env` — the request conforms (principal / resource of the environment's types, the environment's action, context
          of the declared record type) and every entity PRESENT in the store conforms to the declaration of its type
          (`EntityOK`: required attributes present with values of their types, optional attributes well-typed if present, no
-         undeclared attribute; tag values of the declared tag type, no tags if none is declared; the entity type of every
-         parent is one of the `memberOf` types of the child's type).  Entities may be ABSENT from the store.
-         For ACTION entities (their types have no declaration) `EntityOK.parents` asks the parents to have the action's own
-         entity type; a store with an action group of ANOTHER action type (another namespace) is accepted by
-         `Validator.Entities` but breaks the static False of `typeOfIn`: `C15_action_cross_namespace_counterexample`.
+         undeclared attribute; tag values of the declared tag type, no tags if none is declared; every parent of a
+         NON-action entity is a non-action entity whose entity type is one of the `memberOf` types of the child's type).
+         Entities may be ABSENT from the store.
+         For ACTION entities (their types have no declaration) `EntityOK.parents` only asks the parents to be action
+         entities — of ANY action entity type: an action group declared in another namespace is covered (it was not
+         before the repair of `in-action-type-cross-namespace`, see the regression example at `c15CrossNs`); WHICH
+         actions is what `ActionsOK` says.  (What `EntityOK.parents` still excludes: a non-action entity below an action
+         entity.  `Validator.Entities` allows it only for a schema that declares an entity type NAMED `Action` and lists
+         it under `memberOf` — cedar-go's resolver does not refuse that declaration, Rust Cedar does.)
     `ActionsOK Γ env` — the environment's action is a schema action; every schema action that has parents in the schema
          is present in the store with (at least) those parents; the parents of a present schema action are schema actions
          above it in the schema's hierarchy.  Needed because `typeOfIn` folds `action in …` from the SCHEMA's action
          hierarchy while evaluation consults the store; without it: `C15_action_absent_counterexample`.
-  Three former domain restrictions are gone (repaired in cedar-go, `fix:` commits):
+  Four former domain restrictions and one former restriction of the store hypothesis are gone (repaired in cedar-go,
+  `fix:` commits):
+    (D7) `hasTag` / `getTag` on an entity LUB of which SOME but not all elements declare tags (permissive mode only —
+         strict mode has no such LUBs) were outside the domain: the unrepaired code typed such a `hasTag` False
+         (`entityHasTags` demanded tags on EVERY element) although it is true for an entity of an element type that has
+         tags.  `hasTag` is now False only when NO element declares tags, otherwise Bool, and `getTag` has the LUB of the
+         tag types of the elements that declare tags — `C15_hasTag_false_iff_no_tags`; the old witness is a regression
+         `example` below (`c15MixedTag`);
+    (store) `x in y` with `x` of an action entity type and `y` of ANOTHER action entity type was folded to False from
+         the entity-type hierarchy; an action type may now be below any action type (`anyDescInner`), and
+         `EntityOK.parents` no longer asks action groups to have the action's own entity type; the old witness is a
+         regression `example` below (`c15CrossNs`);
     (D2) attribute names in `has` / `.` had to contain no '.': capability keys were dotted renderings of access paths
          and collided otherwise (`context["a.b"] has x` licensed `context.a.b.x`).  Keys are now the access paths
          themselves, compared structurally — `C15_capability_paths_injective`; the theorem covers every attribute name
@@ -49,9 +62,9 @@
   structural access paths (incl. nested paths `principal.mgr.name`, `context.a.b` and attribute names of any shape);
   `is` with its True/False folding from the static entity LUB; `in` (right operand an entity or a set of entities) with the
   static False from the schema's entity-type hierarchy (`isEntityDescendant` / `anyEntityDescendantOf`: depth-first search
-  with a visited set) and the True/False folding of `action in …` from the schema's action hierarchy; `is … in` (no
+  with a visited set; two action entity types are never folded) and the True/False folding of `action in …` from the schema's action hierarchy; `is … in` (no
   folding in the Go code); `hasTag` (False when no element of the LUB declares tags, tag capabilities for string-literal
-  keys) and `getTag` (tag type of the LUB, needs the tag capability); set literals (LUB of element types, strict and
+  keys) and `getTag` (LUB of the tag types of the elements that declare tags, needs the tag capability); set literals (LUB of element types, strict and
   permissive, incl. records); record literals (duplicate keys: last wins); `contains containsAll containsAny isEmpty`;
   `like`; all 22 extension functions (constructors on string literals).  Outside the model (`typeOf` answers
   `unsupported`, never `ok`): set / record / extension VALUES as literals (the parser never produces them).
@@ -417,7 +430,7 @@ theorem c15Ents_ok (strict : Bool) (uid : UID) (d : EntityData) (h : c15Ents.get
     · rw [c15ΓE_decl_user]
       intro p hp
       simp only [List.mem_cons, List.not_mem_nil, or_false] at hp
-      subst hp; exact .inl (by simp)
+      subst hp; exact .inl ⟨by decide, by decide, by simp⟩
   · split at h
     · rename_i _ hk
       have := (beq_iff_eq.mp hk).symm; subst this
@@ -448,7 +461,7 @@ theorem entities_get_append (a b : Entities) (u : UID) :
     · rfl
     · exact ih
 
-/-- the action entities: no attributes, no tags, parents of the action's own entity type -/
+/-- the action entities: no attributes, no tags, parents that are action entities -/
 theorem c15ActionEnts_ok (strict : Bool) (uid : UID) (d : EntityData) (h : c15ActionEnts.get uid = some d) :
     EntityOK (c15ΓE strict) uid d := by
   simp only [c15ActionEnts, Entities.get] at h
@@ -461,7 +474,7 @@ theorem c15ActionEnts_ok (strict : Bool) (uid : UID) (d : EntityData) (h : c15Ac
     · intro k v hkv; simp [kvGet] at hkv
     · intro p hp
       simp only [List.mem_cons, List.not_mem_nil, or_false] at hp
-      subst hp; exact .inr ⟨by decide, rfl⟩
+      subst hp; exact .inr ⟨by decide, by decide⟩
   · split at h
     · rename_i _ hk
       have := (beq_iff_eq.mp hk).symm; subst this
@@ -597,14 +610,18 @@ theorem C15_isEntityDescendant_total (Γ : TEnv) (c a : String) : ∃ b, isEntit
 example : isEntityDescendant (c15ΓE true) "User" "Group" = some true ∧ isEntityDescendant (c15ΓE true) "Group" "User" = some false := by
   constructor <;> decide +kernel
 
-/-- **In a conforming store, reachability between entities implies descendant-ness of their types**: if `x` reaches `y`
-    through parent links of entities PRESENT in the store, then the entity type of `x` equals that of `y` or reaches it
-    through the schema's `memberOf` declarations.  What store conformance says for this is `EntityOK.parents`: the
-    entity type of each parent of a present entity is one of the `ParentTypes` of the child's type (for an action entity:
-    the action's own entity type).  Together with `C03_entityInOne_correct` (`in` = reachability) this is what makes the
-    static False of `typeOfIn` sound. -/
+/-- **In a conforming store, reachability between entities implies descendant-ness of their types**: if a NON-action
+    entity `x` reaches `y` through parent links of entities PRESENT in the store, then `y` is not an action entity and
+    the entity type of `x` equals that of `y` or reaches it through the schema's `memberOf` declarations; an ACTION entity
+    reaches action entities only (of whatever action entity type).  What store conformance says for this is
+    `EntityOK.parents`.  Together with `C03_entityInOne_correct` (`in` = reachability) this is what makes the static
+    False of `typeOfIn` sound: it is answered only when no element of the left LUB equals or reaches an element of the
+    right one and no element of the left and of the right LUB are both action entity types. -/
 theorem C15_store_reach_type_descendant (Γ : TEnv) (env : Env) (hΓ : EnvOK Γ env) (x y : UID)
-    (h : Reach env.entities x y) : x.1 = y.1 ∨ Schema.Reaches (entityParentsOf Γ) x.1 y.1 :=
+    (h : Reach env.entities x y) :
+    (isActionEntity x.1 = true → isActionEntity y.1 = true) ∧
+    (isActionEntity x.1 = false →
+      isActionEntity y.1 = false ∧ (x.1 = y.1 ∨ Schema.Reaches (entityParentsOf Γ) x.1 y.1)) :=
   reach_types hΓ h
 
 example : Reach c15EnvE.entities ("User", "a") ("Group", "g") :=
@@ -636,15 +653,62 @@ def c15MixedTag : Expr :=
   .ite (.binop .hasTag (.ite (.binop .gt (.access (.var .context) "n") (.lit (.long 0))) (.var .principal) (.var .resource)) (.lit (.str "k")))
     (.binop .eq (.binop .add (.lit (.long 1)) (.lit (.str "a"))) (.lit (.long 2))) (.lit (.bool true))
 
-/-- **Unsound (D7), permissive mode** (finding `hastag-lub-mixed-tags`): `hasTag` on an entity LUB of which only SOME
-    elements declare tags (`User` does, `Doc` does not) is typed False (`entityHasTags` demands tags on EVERY element),
-    although it is true for a `User` carrying the tag; the then branch is never type-checked and fails with a TYPE error
-    on a conforming request and store.  Strict mode rejects the LUB of unrelated entity types; `dom = true` rejects. -/
-theorem C15_hasTag_mixed_counterexample :
-    EnvOK (c15ΓE false) c15EnvE ∧ ActionsOK (c15ΓE false) c15EnvE ∧
-    condOK false (c15ΓE false) c15MixedTag = .ok true ∧ eval c15MixedTag c15EnvE = .error .type ∧
-    condOK false (c15ΓE true) c15MixedTag = .ok false ∧ condOK true (c15ΓE false) c15MixedTag = .ok false :=
-  ⟨c15EnvE_ok false, c15EnvE_actions false, by decide +kernel, isErr_eq (by decide +kernel), by decide +kernel, by decide +kernel⟩
+/-- `(if context.n > 0 then principal else resource).hasTag("k")`: the test of `c15MixedTag` alone -/
+def c15MixedTest : Expr :=
+  .binop .hasTag (.ite (.binop .gt (.access (.var .context) "n") (.lit (.long 0))) (.var .principal) (.var .resource)) (.lit (.str "k"))
+
+/-- `if (if context.n > 0 then principal else resource).hasTag("k") then context.n > 0 else true`: a well-typed then branch -/
+def c15MixedTagGood : Expr :=
+  .ite c15MixedTest (.binop .gt (.access (.var .context) "n") (.lit (.long 0))) (.lit (.bool true))
+
+def isBoolExact : Ty → Bool | .bool => true | _ => false
+
+/-- **(D7) is gone** (repair of `hastag-lub-mixed-tags`): `hasTag` on an operand whose type is an entity LUB is typed
+    False exactly when NO element of the LUB declares tags (then it is false on every conforming store: `EntityOK.tags`);
+    as soon as SOME element declares tags it is Bool.  Holds for the Go algorithm (`dom = false`) and inside the proved
+    domain alike, in both modes.  (The unrepaired code answered False unless EVERY element declared tags.) -/
+theorem C15_hasTag_false_iff_no_tags (dom : Bool) (Γ : TEnv) (l r : Expr) (caps lc rc : Caps) (tys : List String)
+    (hl : typeOf dom Γ l caps = .ok (.entity tys, lc)) (hr : typeOf dom Γ r caps = .ok (.string, rc)) :
+    ((∀ t ∈ tys, (declOf Γ t).tags = none) → typeOf dom Γ (.binop .hasTag l r) caps = .ok (.ff, caps)) ∧
+    ((∃ t ∈ tys, (declOf Γ t).tags.isSome = true) → ∃ c', typeOf dom Γ (.binop .hasTag l r) caps = .ok (.bool, c')) := by
+  constructor
+  · intro hnone
+    have : entityHasTags Γ tys = false := by
+      simp only [entityHasTags, List.any_eq_false]
+      intro t ht; rw [hnone t ht]; simp
+    simp [typeOf, hl, hr, hasTagResult, this]
+  · rintro ⟨t, ht, hs⟩
+    have : entityHasTags Γ tys = true := by
+      simp only [entityHasTags, List.any_eq_true]
+      exact ⟨t, ht, hs⟩
+    exact ⟨_, by simp only [typeOf, hl, hr, hasTagResult, this]; rfl⟩
+
+/-- non-vacuity of `C15_hasTag_false_iff_no_tags`: the operand of `c15MixedTest` has the LUB `{Doc, User}` -/
+example : acceptsAs (fun t => match t with | .entity ["Doc", "User"] => true | _ => false)
+    (typeOf false (c15ΓE false) (.ite (.binop .gt (.access (.var .context) "n") (.lit (.long 0))) (.var .principal) (.var .resource)) []) = true := by
+  decide +kernel
+
+/-- REGRESSION (was `C15_hasTag_mixed_counterexample`, finding `hastag-lub-mixed-tags`: permissive mode typed `hasTag` on
+    the LUB of `User` (tags) and `Doc` (no tags) False, the then branch `1 + "a" == 2` was never type-checked, the policy
+    was accepted and failed with a TYPE error on a conforming request and store): the test is now Bool — for the Go
+    algorithm and in the proved domain —, so the then branch IS type-checked and the policy is rejected; the evaluation
+    error is unchanged, but the policy no longer validates.  Strict mode rejects the LUB of unrelated entity types as before. -/
+example : EnvOK (c15ΓE false) c15EnvE ∧ ActionsOK (c15ΓE false) c15EnvE ∧
+    condOK false (c15ΓE false) c15MixedTag = .ok false ∧ condOK true (c15ΓE false) c15MixedTag = .ok false ∧
+    condOK false (c15ΓE true) c15MixedTag = .ok false ∧
+    acceptsAs isBoolExact (typeOf false (c15ΓE false) c15MixedTest []) = true ∧
+    acceptsAs isBoolExact (typeOf true (c15ΓE false) c15MixedTest []) = true ∧
+    isErr .type (eval c15MixedTag c15EnvE) = true :=
+  ⟨c15EnvE_ok false, c15EnvE_actions false, by decide +kernel, by decide +kernel, by decide +kernel, by decide +kernel,
+   by decide +kernel, by decide +kernel⟩
+
+/-- … while the same test guarding a well-typed branch is accepted (permissive mode, also in the proved domain), and the
+    soundness theorem now applies to it: on the store where the `User` carries the tag it evaluates to a Boolean -/
+example : condOK false (c15ΓE false) c15MixedTagGood = .ok true ∧ condOK true (c15ΓE false) c15MixedTagGood = .ok true := by
+  constructor <;> decide +kernel
+
+example : (∃ b, eval c15MixedTagGood c15EnvE = .ok (.bool b)) ∨ (∃ k, eval c15MixedTagGood c15EnvE = .error k ∧ Allowed k) :=
+  C15_condition_sound_partial (c15ΓE false) c15EnvE (c15EnvE_ok false) (c15EnvE_actions false) c15MixedTagGood (by decide +kernel)
 
 /-- schema with an action group in ANOTHER namespace: `action grp; namespace NS { action view in [Action::"grp"] appliesTo … }` -/
 def c15ΓX (strict : Bool) : TEnv :=
@@ -664,27 +728,176 @@ def c15CrossNs : Expr :=
       (.lit (.entity "Action" "grp")))
     (.binop .eq (.binop .add (.lit (.long 1)) (.lit (.str "a"))) (.lit (.long 2))) (.lit (.bool true))
 
-/-- **Why `EntityOK.parents` asks the parents of an ACTION entity to have the action's own entity type** (finding
-    `in-action-type-cross-namespace`): when an action has a parent of another action entity type (a group declared in
-    another namespace) and the left operand of `in` is not syntactically `action` or an action literal, `typeOfIn`
-    consults the ENTITY-type hierarchy — in which action types have no `ParentTypes` — and folds the test to False; it
-    evaluates to true on the store `Validator.Entities` accepts (action entities with the schema's parents), and the
-    then branch, never type-checked, fails with a TYPE error.  Both modes, inside `dom = true`.  The store violates
-    `EntityOK.parents` (and nothing else of `EnvOK`). -/
-theorem C15_action_cross_namespace_counterexample :
-    condOK true (c15ΓX true) c15CrossNs = .ok true ∧ condOK true (c15ΓX false) c15CrossNs = .ok true ∧
-    condOK false (c15ΓX true) c15CrossNs = .ok true ∧
-    eval c15CrossNs c15EnvX = .error .type ∧
-    c15EnvX.action = .entity (c15ΓX true).action.1 (c15ΓX true).action.2 ∧
-    c15EnvX.entities.get ("NS::Action", "view") = some ⟨[("Action", "grp")], [], []⟩ ∧
-    ¬ EnvOK (c15ΓX true) c15EnvX := by
-  have hg : c15EnvX.entities.get ("NS::Action", "view") = some ⟨[("Action", "grp")], [], []⟩ := by
-    simp [c15EnvX, c15EnvE, c15Ents, Entities.get]
-  refine ⟨by decide +kernel, by decide +kernel, by decide +kernel, isErr_eq (by decide +kernel), rfl, hg, ?_⟩
+/-- `(if context.n > 0 then action else action) in Action::"grp"`: the test of `c15CrossNs` alone -/
+def c15CrossTest : Expr :=
+  .binop .in_ (.ite (.binop .gt (.access (.var .context) "n") (.lit (.long 0))) (.var .action) (.var .action))
+    (.lit (.entity "Action" "grp"))
+
+/-- `if (if context.n > 0 then action else action) in Action::"grp" then context.n > 0 else false`: a well-typed then branch -/
+def c15CrossNsGood : Expr :=
+  .ite c15CrossTest (.binop .gt (.access (.var .context) "n") (.lit (.long 0))) (.lit (.bool false))
+
+/-- **Two action entity types are never folded** (repair of `in-action-type-cross-namespace`): when the left LUB holds
+    an action entity type and the right LUB holds an action entity type — the same or ANOTHER one (a group declared in
+    another namespace) — `anyEntityDescendantOf` does not answer `false`, so `typeOfIn` does not fold the test to False
+    from the entity-type hierarchy (in which action types have no `ParentTypes`). -/
+theorem C15_action_types_never_folded (Γ : TEnv) (ls rs : List String) (lt rt : String) (hl : lt ∈ ls) (hr : rt ∈ rs)
+    (hla : isActionEntity lt = true) (hra : isActionEntity rt = true) : anyEntityDescendantOf Γ ls rs ≠ some false :=
+  fun h => (anyEntityDescendantOf_false h lt hl rt hr).2.1 ⟨hla, hra⟩
+
+example : isActionEntity "NS::Action" = true ∧ isActionEntity "Action" = true ∧
+    anyEntityDescendantOf (c15ΓX true) ["NS::Action"] ["Action"] = some true ∧
+    anyEntityDescendantOf (c15ΓX true) ["NS::Action"] ["Group"] = some false ∧
+    anyEntityDescendantOf (c15ΓX true) ["User"] ["Action"] = some false := by
+  refine ⟨?_, ?_, ?_, ?_, ?_⟩ <;> decide +kernel
+
+/-- the store of the cross-namespace example conforms: `NS::Action::"view"` has the parent `Action::"grp"`, an action
+    entity of ANOTHER action entity type (`Validator.Entities` accepts it; `EntityOK.parents` used to exclude it) -/
+theorem c15EnvX_ok (strict : Bool) : EnvOK (c15ΓX strict) c15EnvX := by
+  refine ⟨⟨"a", rfl⟩, rfl, ⟨"d", rfl⟩, ⟨_, rfl, c15Ctx_ok⟩, by cases strict <;> decide +kernel, ?_⟩
+  intro uid d h
+  simp only [c15EnvX, entities_get_append] at h
+  cases h1 : c15Ents.get uid with
+  | some d1 =>
+    simp only [h1, Option.some.injEq] at h; subst h
+    have h0 := c15Ents_ok strict uid d1 h1
+    exact ⟨h0.attrs, h0.tags, h0.parents⟩
+  | none =>
+    simp only [h1, Entities.get] at h
+    split at h
+    · rename_i hk
+      have := (beq_iff_eq.mp hk).symm; subst this
+      simp only [Option.some.injEq] at h; subst h
+      refine ⟨?_, ?_, ?_⟩
+      · exact hasTy_record_nil
+      · intro k v hkv; simp [kvGet] at hkv
+      · intro p hp
+        simp only [List.mem_cons, List.not_mem_nil, or_false] at hp
+        subst hp; exact .inr ⟨by decide +kernel, by decide +kernel⟩
+    · split at h
+      · rename_i _ hk
+        have := (beq_iff_eq.mp hk).symm; subst this
+        simp only [Option.some.injEq] at h; subst h
+        refine ⟨?_, ?_, ?_⟩
+        · exact hasTy_record_nil
+        · intro k v hkv; simp [kvGet] at hkv
+        · intro p hp; cases hp
+      · simp at h
+
+theorem c15ΓX_parents (strict : Bool) (u p : UID) (h : p ∈ actionParentsOf (c15ΓX strict) u) :
+    u = ("NS::Action", "view") ∧ p = ("Action", "grp") := by
+  simp only [actionParentsOf, c15ΓX, List.lookup] at h
+  split at h
+  · rename_i ps hl
+    split at hl
+    · rename_i hk
+      simp only [Option.some.injEq] at hl; subst hl
+      simp only [List.mem_cons, List.not_mem_nil, or_false] at h
+      exact ⟨beq_iff_eq.mp hk, h⟩
+    · split at hl
+      · simp only [Option.some.injEq] at hl; subst hl; cases h
+      · simp at hl
+  · cases h
+
+/-- … and holds the schema's action entities with the schema's parents -/
+theorem c15EnvX_actions (strict : Bool) : ActionsOK (c15ΓX strict) c15EnvX := by
+  have hview : c15EnvX.entities.get ("NS::Action", "view") = some ⟨[("Action", "grp")], [], []⟩ := by
+    simp [c15EnvX, c15Ents, Entities.get]
+  have hgrp : c15EnvX.entities.get ("Action", "grp") = some ⟨[], [], []⟩ := by
+    simp [c15EnvX, c15Ents, Entities.get]
+  refine ⟨by simp [c15ΓX], ?_, ?_⟩
+  · intro u p hp
+    obtain ⟨rfl, rfl⟩ := c15ΓX_parents strict u p hp
+    exact ⟨_, hview, by simp⟩
+  · intro u hu d hg p hp
+    have hu' : u = ("NS::Action", "view") ∨ u = ("Action", "grp") := by simpa [c15ΓX] using hu
+    rcases hu' with rfl | rfl
+    · rw [hview] at hg
+      have := (Option.some.inj hg).symm; subst this
+      simp only [List.mem_cons, List.not_mem_nil, or_false] at hp; subst hp
+      exact ⟨by simp [c15ΓX], Schema.Reaches.step (by simp [actionParentsOf, c15ΓX])⟩
+    · rw [hgrp] at hg
+      have := (Option.some.inj hg).symm; subst this
+      cases hp
+
+/-- REGRESSION (was `C15_action_cross_namespace_counterexample`, finding `in-action-type-cross-namespace`: the left
+    operand of `in` has the action entity type `NS::Action` but is not syntactically `action`, the right operand is the
+    group `Action::"grp"` of ANOTHER action entity type; `typeOfIn` consulted the entity-type hierarchy — in which action
+    types have no `ParentTypes` — and folded the test to False; it is true on the store `Validator.Entities` accepts, and
+    the then branch `1 + "a" == 2`, never type-checked, failed with a TYPE error; the store was outside `EnvOK`): the
+    test is now Bool — Go algorithm and proved domain, both modes —, so the then branch IS type-checked and the policy is
+    rejected; the store now satisfies the hypotheses of the soundness theorem. -/
+example : EnvOK (c15ΓX true) c15EnvX ∧ ActionsOK (c15ΓX true) c15EnvX ∧
+    condOK false (c15ΓX true) c15CrossNs = .ok false ∧ condOK false (c15ΓX false) c15CrossNs = .ok false ∧
+    condOK true (c15ΓX true) c15CrossNs = .ok false ∧ condOK true (c15ΓX false) c15CrossNs = .ok false ∧
+    acceptsAs isBoolExact (typeOf false (c15ΓX true) c15CrossTest []) = true ∧
+    acceptsAs isBoolExact (typeOf true (c15ΓX false) c15CrossTest []) = true ∧
+    isErr .type (eval c15CrossNs c15EnvX) = true :=
+  ⟨c15EnvX_ok true, c15EnvX_actions true, by decide +kernel, by decide +kernel, by decide +kernel, by decide +kernel,
+   by decide +kernel, by decide +kernel, by decide +kernel⟩
+
+/-- … while the same test guarding a well-typed branch is accepted, the soundness theorem applies to it on the
+    cross-namespace store, and it evaluates to `true` there (the membership test itself is true) -/
+example : condOK false (c15ΓX true) c15CrossNsGood = .ok true ∧ condOK true (c15ΓX true) c15CrossNsGood = .ok true ∧
+    condOK true (c15ΓX false) c15CrossNsGood = .ok true := by
+  refine ⟨?_, ?_, ?_⟩ <;> decide +kernel
+
+example : (∃ b, eval c15CrossNsGood c15EnvX = .ok (.bool b)) ∨ (∃ k, eval c15CrossNsGood c15EnvX = .error k ∧ Allowed k) :=
+  C15_condition_sound_partial (c15ΓX true) c15EnvX (c15EnvX_ok true) (c15EnvX_actions true) c15CrossNsGood (by decide +kernel)
+
+example : (match eval c15CrossNsGood c15EnvX with | .ok (.bool true) => true | _ => false) = true := by decide +kernel
+
+/-- schema that DECLARES an entity type named `Action` and lists it under `memberOf`:
+    `entity Action; entity User in [Group, Action] …; action grp in [NS::Action::"top"]; namespace NS { action top; action view appliesTo … }` -/
+def c15ΓD (strict : Bool) : TEnv :=
+  { c15ΓE strict with
+    action := ("NS::Action", "view")
+    entityTypes := ["User", "Group", "Doc", "Action"]
+    actions := [("NS::Action", "view"), ("Action", "grp"), ("NS::Action", "top")]
+    entityDecls := [("User", ⟨[("name", .string, true), ("age", .long, false), ("mgr", .entity ["User"], false)], some .long, ["Group", "Action"]⟩),
+                    ("Group", ⟨[], none, []⟩),
+                    ("Doc", ⟨[("owner", .entity ["User"], true)], none, []⟩),
+                    ("Action", ⟨[], none, []⟩)]
+    actionParents := [(("NS::Action", "view"), []), (("Action", "grp"), [("NS::Action", "top")]), (("NS::Action", "top"), [])] }
+
+/-- `User::"a"` is a member of the action entity `Action::"grp"`, which is a member of `NS::Action::"top"` -/
+def c15EnvD : Env :=
+  { c15EnvE with
+    entities := [(("User", "a"), ⟨[("Group", "g"), ("Action", "grp")], [("age", .long 30), ("name", .str "n")], [("k", .long 1)]⟩),
+                 (("Group", "g"), ⟨[], [], []⟩),
+                 (("Doc", "d"), ⟨[], [("owner", .entity "User" "a")], []⟩),
+                 (("NS::Action", "view"), ⟨[], [], []⟩),
+                 (("Action", "grp"), ⟨[("NS::Action", "top")], [], []⟩),
+                 (("NS::Action", "top"), ⟨[], [], []⟩)]
+    action := .entity "NS::Action" "view" }
+
+/-- `if principal in NS::Action::"top" then 1 + "a" == 2 else true` -/
+def c15DeclAct : Expr :=
+  .ite (.binop .in_ (.var .principal) (.lit (.entity "NS::Action" "top")))
+    (.binop .eq (.binop .add (.lit (.long 1)) (.lit (.str "a"))) (.lit (.long 2))) (.lit (.bool true))
+
+/-- **Why `EntityOK.parents` asks the parents of a NON-action entity to be non-action entities** (residue of the
+    cross-namespace finding, class `in-entity-below-declared-action-type`): cedar-go's schema resolver does not refuse
+    the declaration of an entity type NAMED `Action` (Rust Cedar does), and such a type may be listed under `memberOf`.
+    `Validator.Entities` then accepts a `User` below the action entity `Action::"grp"`, whose own parent
+    `NS::Action::"top"` has ANOTHER action entity type; `principal in NS::Action::"top"` is folded to False from the
+    entity-type hierarchy (`User` reaches `Action`, which has no `ParentTypes`; the left type is not an action type, so the
+    repaired `anyEntityDescendantOf` does not help), evaluates to true, and the then branch, never type-checked, fails
+    with a TYPE error.  Both modes, inside `dom = true`.  The store violates `EntityOK.parents`. -/
+theorem C15_declared_action_type_counterexample :
+    condOK true (c15ΓD true) c15DeclAct = .ok true ∧ condOK true (c15ΓD false) c15DeclAct = .ok true ∧
+    condOK false (c15ΓD true) c15DeclAct = .ok true ∧
+    eval c15DeclAct c15EnvD = .error .type ∧
+    c15EnvD.principal = .entity (c15ΓD true).principalType "a" ∧
+    ¬ EnvOK (c15ΓD true) c15EnvD := by
+  have hg : c15EnvD.entities.get ("User", "a") =
+      some ⟨[("Group", "g"), ("Action", "grp")], [("age", .long 30), ("name", .str "n")], [("k", .long 1)]⟩ := by
+    simp [c15EnvD, Entities.get]
+  refine ⟨by decide +kernel, by decide +kernel, by decide +kernel, isErr_eq (by decide +kernel), rfl, ?_⟩
   intro h
-  rcases (h.store _ _ hg).parents ("Action", "grp") (by simp) with hm | ⟨_, hs⟩
-  · simp [declOf, c15ΓX, c15ΓE, List.lookup] at hm
-  · exact absurd hs (by decide)
+  rcases (h.store _ _ hg).parents ("Action", "grp") (by simp) with ⟨_, hp, _⟩ | ⟨hu, _⟩
+  · exact absurd hp (by decide)
+  · exact absurd hu (by decide)
 
 /-! ## Non-vacuity: the hypotheses of the soundness theorem are met by a non-trivial expression -/
 
